@@ -299,6 +299,10 @@ func TestRPCPolicy(t *testing.T) {
 		if mode == "crdt-list" && rapid.IntRange(0, 2).Draw(t, "earlyDistrust") == 0 {
 			// the listed peer is distrusted before it has ever connected: the
 			// target knows no address of it at this point
+			// (make sure of it: a connection left over from the previous case
+			// may have come back by itself)
+			a.Network().ClosePeer(callers[listedIdx].ID())
+			a.Peerstore().ClearAddrs(callers[listedIdx].ID())
 			if err := tg.cons.Distrust(context.Background(), callers[listedIdx].ID()); err != nil {
 				t.Fatalf("Distrust: %v", err)
 			}
